@@ -109,4 +109,5 @@ def run(ctx):
                          'the key is hashed with the column hasher before the overlay lookup in the hash arm')
     shared.one_salt_per_handle(ctx, '8')
     shared.page_search_hands_out_only_compared_entries(ctx, '10a')   # F67
+    shared.index_entries_stored_whole(ctx, '11')   # F77: ... and an entry changes as a whole under the search
     shared.removal_planned_in_order(ctx, '9')   # a tree inserted after its removal in one transaction is there once the commit was processed (F63)
